@@ -33,7 +33,13 @@ const _: () = {
             if !self.output.is_empty() {
                 self.output.push('&');
             }
-            key.serialize(&mut **self)
+            let len_before_key = self.output.len();
+            key.serialize(&mut **self)?;
+            /* the decoder (rightly) refuses `=value` */
+            if self.output.len() == len_before_key {
+                return Err(serde::ser::Error::custom("empty key"))
+            }
+            Ok(())
         }
         fn serialize_value<T: ?Sized>(&mut self, value: &T) -> Result<(), Self::Error>
         where T: serde::Serialize {
